@@ -387,7 +387,9 @@ fn run_single_program(
                 let fds_prev = pipes[idx_cmd - 1];
                 libs::dup2(fds_prev.0, 0);
                 libs::close(fds_prev.0);
-                libs::close(fds_prev.1);
+                // fds_prev.1 was closed by the shell before this fork (right
+                // after the previous stage was started): its number may
+                // already belong to the here-string pipe, do not touch it.
             }
             if idx_cmd < pipes_count {
                 let fds = pipes[idx_cmd];
